@@ -11,3 +11,14 @@ print("| id | tier | seed | wall s | TLC distinct states | executions on the rea
 print("|---|---|---|---|---|---|---|---|---|")
 for r in rows:
     print("| " + " | ".join(str(x) for x in r) + " |")
+
+# --update: write the table between the markers of DESIGN.md
+import sys, io
+if "--update" in sys.argv:
+    buf = ["| id | tier | seed | wall s | TLC distinct states | executions on the real code | non-trivial, distinct | traces validated | unlisted violations |",
+           "|---|---|---|---|---|---|---|---|---|"] + ["| " + " | ".join(str(x) for x in r) + " |" for r in rows]
+    d = os.path.join(os.path.dirname(os.path.dirname(os.path.abspath(__file__))), "DESIGN.md")
+    s = open(d).read()
+    a, b = s.index("<!-- COST-TABLE-BEGIN -->"), s.index("<!-- COST-TABLE-END -->")
+    s = s[:a] + "<!-- COST-TABLE-BEGIN -->\n" + "\n".join(buf) + "\n" + s[b:]
+    open(d, "w").write(s)
